@@ -528,7 +528,7 @@ def run(ctx):
         if any(c in "MC" for c in sc[1][:sc[0]]):
             ctx.count("failure_before_init_code", r["stat"]["executions"])
         if sc[4].startswith("H"):
-            # vacuity of the H worlds: schedules in which the GIL holder was NOT the initialising thread
+            # vacuity of the H worlds: how many distinct event logs the GIL-holding callers produced
             ctx.count("gil_held_caller_distinct_logs", r["stat"]["distinct"])
         if os.environ.get("C28_DEBUG"):
             ctx.log("%r: %s" % (sc, r["stat"]))
